@@ -28,6 +28,7 @@ partial def hOf : Sexp → Option H
   | .list [.atom "not", a] => do some (.not (← hOf a))
   | .list [.atom "neg", a] => do some (.neg (← hOf a))
   | .list [.atom "ofnat", a] => do some (.ofNat (← hOf a))
+  | .list [.atom "ofnatvar", .atom x] => some (.ofNatVar x)
   | .list [.atom "abs", r, a] => do some (.abs (← r.toBool?) (← hOf a))
   | .list [.atom "sub", n, a, b] => do some (.sub (← n.toBool?) (← hOf a) (← hOf b))
   | .list [.atom "ite", c, a, b] => do some (.ite (← hOf c) (← hOf a) (← hOf b))
